@@ -227,21 +227,203 @@ def run_sweep(ck, ns=None, builds=("release", "debug")):
                     ck.nontriv((n, off, w))
     ck.sample({"N": 3, "offset": 5, "width": 13, "entry_points": ["get", "set", "raw_get", "raw_set", "get_const", "set_const", "raw_get_const", "raw_set_const"]})
     ck.extra["const_generic_pairs"] = sum(len(const_pairs(n, ck.tier)) for n in ns)
-    ck.assume("little-endian host only: the cfg!(target_endian = \"big\") branches of bitfield_unit.rs are not executed")
+    ck.assume("native execution on the little-endian host; the cfg!(target_endian = \"big\") branches of bitfield_unit.rs and 32-bit usize "
+              "arithmetic are executed by the miri interpreter for foreign targets (foreign sweep / foreign records), not on hardware")
+
+
+# --------------------------------------------------------------------------------------------------
+# (a') the same accessor arithmetic executed for FOREIGN targets under miri: big-endian (the
+# cfg!(target_endian = "big") branches) and 32-bit (usize arithmetic). The model is an independent one: the
+# storage is ONE integer S of 8N bits (big-endian value of the bytes on a big-endian target, little-endian value
+# otherwise); a field is (S >> shift) & mask with shift = off (LE) or 8N - off - w (BE: bit `off` is the
+# field's most significant bit, which is how C allocates bit-fields on big-endian ABIs - bound to clang by the
+# record part, c03c).
+
+PROGRAM_F = r"""
+#![allow(warnings)]
+include!("@UNIT@");
+use std::panic::{catch_unwind, AssertUnwindSafe};
+type U<const N: usize> = __BindgenBitfieldUnit<[u8; N]>;
+const BE: bool = @BE@;
+const N: usize = @N@;
+static PAIRS: &[(usize, u8)] = &[@PAIRS@];
+fn to_int(b: &[u8]) -> u128 { let mut s = 0u128; if BE { for x in b { s = (s << 8) | *x as u128; } } else { for x in b.iter().rev() { s = (s << 8) | *x as u128; } } s }
+fn from_int(s: u128) -> [u8; N] { let mut b = [0u8; N]; for i in 0..N { let sh = if BE { 8 * (N - 1 - i) } else { 8 * i }; b[i] = (s >> sh) as u8; } b }
+fn shift(off: usize, w: usize) -> usize { if BE { 8 * N - off - w } else { off } }
+fn mask(w: usize) -> u128 { if w == 64 { u64::MAX as u128 } else { (1u128 << w) - 1 } }
+fn values(w: usize) -> Vec<u64> {
+    let m = mask(w) as u64;
+    let mut v = vec![0, m, 0xAAAA_AAAA_AAAA_AAAA, 0x5555_5555_5555_5555, 0x0123_4567_89AB_CDEF, 1, 1u64 << (w - 1), 1u64 << (w / 2), u64::MAX];
+    v.dedup(); v
+}
+fn fills() -> [[u8; N]; 3] {
+    let mut p = [0u8; N];
+    let mut x: u32 = 0x9E37_79B9;
+    for b in p.iter_mut() { x = x.wrapping_mul(1664525).wrapping_add(1013904223); *b = (x >> 24) as u8; }
+    [[0u8; N], [0xFFu8; N], p]
+}
+fn has_const(o: usize, w: u8) -> bool { matches!((o, w), @HAS@) }
+fn gc(u: &U<N>, o: usize, w: u8) -> u64 { match (o, w) { @ARMS_G@ _ => unreachable!() } }
+fn sc(u: &mut U<N>, o: usize, w: u8, v: u64) { match (o, w) { @ARMS_S@ _ => unreachable!() } }
+fn rgc(u: *const U<N>, o: usize, w: u8) -> u64 { match (o, w) { @ARMS_RG@ _ => unreachable!() } }
+fn rsc(u: *mut U<N>, o: usize, w: u8, v: u64) { match (o, w) { @ARMS_RS@ _ => unreachable!() } }
+fn main() {
+    std::panic::set_hook(Box::new(|_| {}));
+    assert_eq!(cfg!(target_endian = "big"), BE, "harness: endianness of the interpreted target");
+    let mut ops = 0u64;
+    let mut fails: Vec<String> = vec![];
+    for &(off, w8) in PAIRS {
+        let w = w8 as usize;
+        let hc = has_const(off, w8);
+        for fill in fills() {
+            let s0 = to_int(&fill);
+            let want_get = ((s0 >> shift(off, w)) & mask(w)) as u64;
+            let u = U::<N>::new(fill);
+            let mut gets: Vec<(&str, Box<dyn Fn() -> u64>)> = vec![
+                ("get", Box::new(move || u.get(off, w8))),
+                ("raw_get", Box::new(move || unsafe { U::<N>::raw_get(&u as *const _, off, w8) }))];
+            if hc { gets.push(("get_const", Box::new(move || gc(&u, off, w8)))); gets.push(("raw_get_const", Box::new(move || rgc(&u as *const _, off, w8)))); }
+            for (name, f) in gets {
+                ops += 1;
+                match catch_unwind(AssertUnwindSafe(|| f())) {
+                    Ok(v) if v == want_get => {}
+                    Ok(v) => fails.push(format!("{{\"n\":{N},\"off\":{off},\"w\":{w},\"entry\":\"{name}\",\"kind\":\"wrong-value\",\"got\":\"{v:#x}\",\"want\":\"{want_get:#x}\"}}")),
+                    Err(_) => fails.push(format!("{{\"n\":{N},\"off\":{off},\"w\":{w},\"entry\":\"{name}\",\"kind\":\"panic\"}}")),
+                }
+            }
+            for val in values(w) {
+                let want = from_int((s0 & !(mask(w) << shift(off, w))) | (((val as u128) & mask(w)) << shift(off, w)));
+                let mut sets: Vec<(&str, Box<dyn Fn(&mut U<N>)>)> = vec![
+                    ("set", Box::new(move |u: &mut U<N>| u.set(off, w8, val))),
+                    ("raw_set", Box::new(move |u: &mut U<N>| unsafe { U::<N>::raw_set(u as *mut _, off, w8, val) }))];
+                if hc { sets.push(("set_const", Box::new(move |u: &mut U<N>| sc(u, off, w8, val)))); sets.push(("raw_set_const", Box::new(move |u: &mut U<N>| rsc(u as *mut _, off, w8, val)))); }
+                for (name, f) in sets {
+                    ops += 1;
+                    let mut u = U::<N>::new(fill);
+                    match catch_unwind(AssertUnwindSafe(|| { f(&mut u); u.storage })) {
+                        Ok(bytes) if bytes == want => {}
+                        Ok(bytes) => {
+                            let keep = !(mask(w) << shift(off, w));
+                            let other = (to_int(&bytes) & keep) != (s0 & keep);
+                            fails.push(format!("{{\"n\":{N},\"off\":{off},\"w\":{w},\"entry\":\"{name}\",\"kind\":\"{}\",\"val\":\"{val:#x}\"}}", if other { "clobbers-other-bits" } else { "wrong-field-bits" }))
+                        }
+                        Err(_) => fails.push(format!("{{\"n\":{N},\"off\":{off},\"w\":{w},\"entry\":\"{name}\",\"kind\":\"panic\"}}")),
+                    }
+                }
+            }
+        }
+    }
+    println!("{{\"pairs\":{},\"ops\":{}}}", PAIRS.len(), ops);
+    let mut seen = std::collections::BTreeSet::new();
+    for f in &fails {
+        let key: String = f.split(",\"val\"").next().unwrap().split(",\"got\"").next().unwrap().to_string();
+        if seen.insert(key) { println!("{f}"); }
+    }
+}
+"""
+
+GRID_O = [0, 1, 3, 5, 7, 8, 9, 15, 16, 17, 24, 31, 32, 33, 56, 57, 63, 64, 65, 71, 96, 120, 127]
+GRID_W = [1, 2, 3, 7, 8, 9, 16, 17, 31, 32, 33, 56, 57, 58, 63, 64]
+
+
+def foreign_pairs(n, tier):
+    pairs = []
+    for off in range(8 * n):
+        for w in range(1, 65):
+            if off + w > 8 * n:
+                break
+            if tier == "thorough" or n <= 2 or (off in GRID_O and (w in GRID_W or off + w == 8 * n)):
+                pairs.append((off, w))
+    return pairs
+
+
+def gen_program_foreign(n, pairs, be):
+    cp = [(o, w) for k, (o, w) in enumerate(pairs) if k % 7 == 0][:40]   # const-generic entry points on a subset (monomorphisation cost)
+    rep = {
+        "@UNIT@": UNIT, "@BE@": "true" if be else "false", "@N@": str(n),
+        "@PAIRS@": ",".join(f"({o},{w})" for o, w in pairs),
+        "@HAS@": "|".join(f"({o},{w})" for o, w in cp) or "(999,0)",
+        "@ARMS_G@": "".join(f"({o},{w})=>u.get_const::<{o},{w}>()," for o, w in cp),
+        "@ARMS_S@": "".join(f"({o},{w})=>u.set_const::<{o},{w}>(v)," for o, w in cp),
+        "@ARMS_RG@": "".join(f"({o},{w})=>unsafe{{U::<N>::raw_get_const::<{o},{w}>(u)}}," for o, w in cp),
+        "@ARMS_RS@": "".join(f"({o},{w})=>unsafe{{U::<N>::raw_set_const::<{o},{w}>(u,v)}}," for o, w in cp),
+    }
+    src = PROGRAM_F
+    for k, v in rep.items():
+        src = src.replace(k, v)
+    return src
+
+
+def run_sweep_foreign(ck, targets, ns, chunk=60, only=None):
+    from . import foreign
+    foreign.ensure_sysroots(targets)
+    wd = os.path.join(ck.wd, "sweep_foreign")
+    os.makedirs(wd, exist_ok=True)
+    work = []
+    for t in targets:
+        for n in ns:
+            pairs = foreign_pairs(n, ck.tier)
+            if only:
+                pairs = [(only["off"], only["w"])]
+            for k in range(0, len(pairs), chunk):
+                work.append((t, n, k // chunk, pairs[k:k + chunk]))
+
+    def one(x):
+        t, n, k, pairs = x
+        src = os.path.join(wd, f"fs_{t}_{n}_{k}.rs")
+        open(src, "w").write(gen_program_foreign(n, pairs, foreign.big_endian(t)))
+        rc, out, err = foreign.miri_run(src, t, timeout=3000)
+        return t, n, pairs, rc, out, err
+
+    pairs_done = ops = 0
+    per_target = {}
+    for t, n, pairs, rc, out, err in common.pmap(one, work):
+        lines = out.strip().splitlines()
+        if rc != 0 or not lines or not lines[0].startswith("{\"pairs\""):
+            raise common.Machinery(f"C03 foreign sweep did not run under miri for {t} N={n}: rc={rc} {err[-1200:]}")
+        head = json.loads(lines[0])
+        pairs_done += head["pairs"]
+        ops += head["ops"]
+        per_target[t] = per_target.get(t, 0) + head["pairs"]
+        for l in lines[1:]:
+            f = json.loads(l)
+            case = f"sweep target={t} N={f['n']} off={f['off']} w={f['w']} entry={f['entry']} {f['kind']}"
+            ck.violation(case, {"kind": "sweep-foreign", "target": t, "n": f["n"], "off": f["off"], "w": f["w"], "predicate": attribute(f),
+                                "why": f"{f['entry']} on storage [u8;{f['n']}] offset {f['off']} width {f['w']} interpreted for {t}: {f['kind']} {f.get('got','')} {f.get('want','')} {f.get('val','')}"})
+        for (o, w) in pairs:
+            if o % 8 or w % 8:
+                ck.nontriv((t, n, o, w))
+    ck.count(pairs_done)
+    ck.extra["foreign_sweep_triples"] = pairs_done
+    ck.extra["foreign_sweep_ops"] = ops
+    ck.extra["foreign_sweep_targets"] = per_target
+    ck.extra["states"] = ck.extra.get("states", 0) + pairs_done
+    ck.extra["transitions"] = ck.extra.get("transitions", 0) + ops
 
 
 def run(ck, only=None):
     if only and only.get("kind") == "sweep":
         run_sweep(ck, ns=[only["n"]], builds=(only["build"],))
         return
-    if ck.tier == "quick":
+    if only and only.get("kind") in ("record", "record-foreign", "sweep-foreign"):
+        pass
+    elif ck.tier == "quick":
         run_sweep(ck, ns=[1, 2, 3, 4, 5, 8, 9, 12, 16])
         ck.cap("quick tier: storage sizes {1,2,3,4,5,8,9,12,16}; const-generic entry points on a boundary grid of (offset,width) pairs "
                "(all pairs for N<=2); thorough covers every N in 1..=16 and every pair")
     else:
         run_sweep(ck)
-    from . import c03b
+    if only and only.get("kind") == "sweep-foreign":
+        run_sweep_foreign(ck, [only["target"]], [only["n"]], only=only)
+        return
+    if not only:
+        if ck.tier == "quick":
+            run_sweep_foreign(ck, ["s390x-unknown-linux-gnu", "powerpc-unknown-linux-gnu"], [1, 2, 3, 4, 8, 9, 16])
+        else:
+            run_sweep_foreign(ck, ["s390x-unknown-linux-gnu", "powerpc-unknown-linux-gnu", "mips-unknown-linux-gnu", "i686-unknown-linux-gnu"], list(range(1, 17)), chunk=150)
+    from . import c03b, c03c
     c03b.run(ck, only)
+    c03c.run(ck, only)
 
 
 def replay(ck, case, detail):
